@@ -15,7 +15,7 @@ CHECKS = {
  "C02": dict(engine="crash", level="fault_enumeration", ref="DESIGN.md 5 C02",
    technique=TECH + "crash at device-call boundaries after an acknowledgement, enumerated loss/reorder/tear families of the un-fsynced writes, recovery in a fresh handle against the per-key history",
    text="Workloads of 1-3 single-writer clients with flushes as acknowledgement points run under the seeded scheduler on a simulated device that distinguishes page cache from durable image. Power is cut at sampled (quick) or every (thorough, 1 in 3 workloads) device-call boundary after the first acknowledgement; for each instant a family of images is built from the writes not covered by a completed fsync (none, all, every subset when <= 3-5 writes, prefixes, single drops, sector- or block-granular tearing of each write, random subsets); every image is recovered in a fresh handle after a simulated process restart and each key must carry a state of its own history not older than the last state covered by the last completed flush. Fault enumeration over sampled workloads.",
-   note="Acknowledgement = flush() returned Ok; coverage = state changes whose call returned before the flush was invoked (global event numbers). Device model: 512-byte atomic sectors, honest fsync."),
+   note="Acknowledgement = flush() returned Ok, or (a third of the runs) the clean drop of the store at the end of the workload returned on a device that can hold what was buffered - crash points then also fall inside and after the close; coverage = state changes whose call returned before the flush was invoked (global event numbers). Device model: 512-byte atomic sectors, honest fsync."),
  "C03": dict(engine="crash", level="fault_enumeration", ref="DESIGN.md 5 C03",
    technique=TECH + "crash at any device-call boundary incl. first initialisation, forged record/marker images inside values, full authenticity oracle and probe workload after recovery",
    text="Same engine as C02 with crash instants over the whole trace (including the very first metadata initialisation and retirements), values whose continuation blocks are byte-exact record heads and retirement markers for the sectors they are predicted to land on, 512-byte and 4096-byte tearing modes; reopen must succeed, every exposed key must carry one complete generation (value, timestamp, expiry) of its own history, no foreign key, len() = exposed keys, partition invariant holds, and the store must accept a probe workload whose flush makes the durable image decode (independent codec) to exactly its contents.",
@@ -31,7 +31,7 @@ CHECKS = {
  "C07": dict(engine="conc", level="exploration", ref="DESIGN.md 5 C07",
    technique=TECH + "2-4 simulated clients on shared keys; the hashed index is sampled at every scheduling step, giving the exact install order of generations, against which every call is attributed and justified",
    text="2-4 client threads issue short sequences (get, insert, delete, compare-and-swap, increment, insert-if-absent, JSON patch, TTL update, flush) on 1-3 shared keys, memory-only and persistent with the real flush workers, under random / sticky / PCT / starve-one schedules with preemption at every seam incl. the optimistic-read -> guarded-swap windows. The per-key sequence of installed generations (timestamp, length, expiry) is observed at every scheduling step; every successful modification must be attributable one-to-one to an installed generation inside its call interval (global event numbers), every transition must go to a strictly newer timestamp, created/swapped/incremented results must fit the predecessor generation (no lost increment, one winner per expected state), and every read, refusal or no-swap must be justified by a state inside the call interval or by one of the two conservative deviations of the property. Exploration level.",
-   note="Linearisation order is taken from the observed install order (trusts the read-only snapshot hook); preemption only at seams; values have unique lengths so that generations are identifiable."),
+   note="Linearisation order is taken from the observed install order (trusts the read-only snapshot hook); preemption only at seams; values have unique lengths so that generations are identifiable; where generations cannot be told apart (8-byte counters installed at the same event stamp) every consistent attribution is tried and a violation is reported only if none explains the history. A directed family deletes and re-creates a key with exactly its previous explicit timestamp while a read-modify-write is in flight."),
  "C08": dict(engine="conc", level="exploration", ref="DESIGN.md 5 C08",
    technique=TECH + "readers against writers/flusher on tiny devices with immediate block reuse; per-read genuineness oracle plus device-side monitor of writes over pinned extents",
    text="Persistent stores on 8-16 block devices (freed blocks are reused at once), cache on and off, single- and multi-block values: readers (get, get_bytes, range, compare-and-swap, increment) race writers, deleters, TTL rewrites, explicit flushes and the background workers, with yield sites around pin / sector load / pread / identity check and between retire, marker write and release. Each read must return byte-for-byte a value written to that key whose generation was current inside the call interval, not-found only if the key was absent/expired inside it, StaleExtent only if a modification overlapped; the simulated device flags any write that overlaps an extent a reader has pinned.",
@@ -54,7 +54,7 @@ CHECKS = {
    note="Sequential histories; crash-recovery half is part of the crash stage when present."),
  "C13": dict(engine="seq", level="exploration", ref="DESIGN.md 5 C13",
    technique=TECH + "exact accounting oracle after every simulated call",
-   text="memory_usage() and len() are compared with the model's sum(overhead + key + value) after every call of seeded workloads, including refused writes under tight limits, growing/shrinking updates, expiries and clean restarts.",
+   text="memory_usage() and len() are compared with the model's sum(overhead + key + value) after every call of seeded workloads, including refused writes under tight limits, growing/shrinking updates, expiries and clean restarts; at the end every key is deleted and both must read zero.",
    note="Stage 1 sequential exact accounting; stage 2 concurrent: creators/growers/deleters against tight limits with memory_usage() <= limit evaluated at every scheduling step and exact sums at quiescence; stage 3: accounting after every crash recovery (duplicate generations on disk)."),
  "C14": dict(engine="seq", level="exploration", ref="DESIGN.md 5 C14",
    technique=TECH + "range queries against the ordered reference model on every tier",
@@ -74,8 +74,8 @@ CHECKS = {
    note="Allocation failure is not injected; a worker killed by the OS (abort) is reported via the crash path."),
  "C19": dict(engine="live", level="exploration", ref="DESIGN.md 5 C19",
    technique=TECH + "virtual-time bounded-liveness: no explicit flush, durable image checked 1 virtual second after a modification, retirement after 2, for every shards x workers configuration",
-   text="No client ever calls flush(). For shards 1-8 x workers 1-8 (the two CPU-count reads are set independently), 1-4 single-writer clients issue small workloads, 1100-1700-entry bursts of 1-byte values (crossing the 1024-entry batch) or 60+ virtual seconds of steady traffic. One virtual second after the last modification the durable image, decoded independently and recovered in a fresh handle, must hold every key's final state; after two virtual seconds the retirement queue and buffers must be empty, the partition invariant must hold and no superseded generation may remain on the device; in the steady variant every modification older than one second must be durable at every one-second checkpoint.",
-   note="Virtual I/O latency: 10-20 us per read/write, 0.5 ms per fsync; fault-free."),
+   text="No client ever calls flush(). For shards 1-8 x workers 1-8 (the two CPU-count reads are set independently), 1-4 single-writer clients issue small workloads, 1100-1700-entry bursts of 1-byte values (crossing the 1024-entry batch) or 60+ virtual seconds of steady traffic. One virtual second after the last modification the durable image, decoded independently and recovered in a fresh handle, must hold every key's final state; after two virtual seconds the retirement queue and buffers must be empty, the partition invariant must hold and no superseded generation may remain on the device; in the steady variant every modification older than one second must be durable at every one-second checkpoint. Further families: hot-key runs (one key overwritten back to back for several virtual seconds with the flusher held after every drain, so that every generation it looks at is already superseded - three bounds at one-second checkpoints), slow-reader runs (a reader held between its extent pin and the end of its device read while the key is overwritten; the postponed retirement must complete within the bound after the reader left), swept runs (TTL keys flushed, expired and removed by the background sweeper; their extents must be retired on the device within the bound).",
+   note="Virtual I/O latency: 10-20 us per read/write, 0.5 ms per fsync; fault-free. Half of all runs model parking_lot's writer-preferring RwLock (hook H7)."),
  "C16": dict(engine="seq", level="exploration", ref="DESIGN.md 5 C16",
    technique=TECH + "differential execution of the same tape with cache on and off under a frozen clock",
    text="The same operation tape is executed twice inside one simulated run, cache on and cache off, with the wall clock frozen so results are a function of the tape alone; the two result sequences must be identical call by call.",
